@@ -14,14 +14,15 @@ Id(x) == IF x \in Reqs THEN x ELSE Unknown
 
 TInit == t0 \in Starts /\ l = t0 /\ Init
 
-TrReset == l = t0 /\ IsEv("reset") /\ UNCHANGED ovars
+(* the reset line carries the configuration of the handler (Unhandled callback set or not) *)
+TrReset == l = t0 /\ IsEv("reset") /\ hasUnh = E.unh /\ UNCHANGED ovars
 TrCall == IsEv("call") /\ E.i \in Reqs /\ OCall(E.i) /\ UNCHANGED nenv
 TrWire == IsEv("wire") /\ E.i \in Reqs /\ OWire(E.i) /\ UNCHANGED nenv
 TrCancel == IsEv("cancel") /\ E.i \in Reqs /\ OCancel(E.i) /\ UNCHANGED nenv
 TrCloseOut == IsEv("closeout") /\ OCloseOut /\ UNCHANGED nenv
 TrPeer == IsEv("peer") /\ OPeer(Id(E.id)) /\ UNCHANGED nenv
 TrUnhandled == IsEv("unhandled") /\ OUnhandled(Id(E.id)) /\ UNCHANGED nenv
-TrHandled == IsEv("handled") /\ OHandled(Id(E.id)) /\ UNCHANGED nenv
+TrHandled == IsEv("handled") /\ (\E taken \in BOOLEAN : OHandled(Id(E.id), taken)) /\ UNCHANGED nenv
 TrRet == IsEv("ret") /\ E.i \in Reqs /\ ORet(E.i, E.o) /\ UNCHANGED nenv
 TrQuiet == IsEv("quiet") /\ OQuiet /\ UNCHANGED nenv
 TrServeRet == IsEv("serve_ret") /\ UNCHANGED ovars
